@@ -9,7 +9,7 @@
    recovered g h        : a fresh instance after setup, then recover(h).
    pview (obs g s)      : num_proposals, num_feedbacks, population with fitness and ids, de-duplication
                           cache, and the same of a wrapped feedback-driven generator. *)
-From PG Require Import Common.Tactics Model.Recover Proofs.RecoverBase Proofs.RecoverEvo Proofs.RecoverDedup Proofs.RecoverMain.
+From PG Require Import Common.Tactics Model.Recover Proofs.RecoverBase Proofs.RecoverEvo Proofs.RecoverDedup Proofs.RecoverMain Proofs.RecoverParts.
 
 (* Every configuration the syntax can name — Sweeping, seeded Random, Evolution with any initialiser /
    reproduction table / update selector (None, Last n, Top n, newest generation, recorded table), Deduping over
@@ -59,6 +59,18 @@ Theorem C15_recover_from_stored_proposals : forall (m : Z) (a : alg) (rw : Z -> 
   pview (obs g (recovered g hm)) = pview (obs g (r_st g r)).
 Proof. exact recover_from_stored_proposals_b. Qed.
 Print Assumptions C15_recover_from_stored_proposals.
+
+(* recover() called twice, with two consecutive parts of the history ("could be called multiple times if there
+   are multiple source of history"), reaches the same observable state. *)
+Theorem C15_recover_in_parts : forall (m : Z) (a : alg) (rw : Z -> Z) (evs : list Z) (h1 h2 : list hentry),
+  recoverable a = true ->
+  let g := denote m a in
+  let r := run_events g rw evs in
+  r_ok g r = true ->
+  h1 ++ h2 = r_hist g r ->
+  pview (obs g (recover g (recover g (init g) h1) h2)) = pview (obs g (r_st g r)).
+Proof. exact recover_in_parts_run. Qed.
+Print Assumptions C15_recover_in_parts.
 
 (* Sweeping, seeded Random and Deduping over them continue, after recovery, with exactly the proposals of
    the uninterrupted run (any number n of further proposals, including the StopIteration that ends them). *)
